@@ -66,8 +66,11 @@ class Part(object):
     shards    : how many processes to use
     """
 
-    def __init__(self, name, strategy=None, enumerate=None, examples=0, timeout=120, shards=None, exhaustive=False):
+    def __init__(self, name, strategy=None, enumerate=None, examples=0, timeout=120, shards=None, exhaustive=False, fuzz=0):
         self.name = name
+        # fuzz > 0: the strategy is driven by a coverage-guided campaign (pbt/fuzz.py: atheris / libFuzzer through
+        # Hypothesis' fuzz_one_input) of that many executions over all shards, instead of Hypothesis' own random generation
+        self.fuzz = fuzz
         self.strategy = strategy
         self.enumerate = enumerate
         self.examples = examples
@@ -334,6 +337,8 @@ def _shard_worker(args):
                         if v.bucket not in known_buckets and len(failures) < 8:
                             failures.append(dict(bucket=v.bucket, case=case, violations=[u.to_json() for u in unknown]))
                             known_buckets.add(v.bucket)
+        if part.strategy is not None and part.fuzz > 0:
+            return _fuzz_shard(pid, tier, part, shard, nshards, seed)
         if part.strategy is not None and part.examples > 0:
             n = max(1, part.examples // nshards + (1 if shard < part.examples % nshards else 0))
             failures += _hypothesis_rounds(ctx, part, n, derive_seed(seed, pid, part_name, shard))
@@ -345,6 +350,50 @@ def _shard_worker(args):
         return dict(error="{}: {}\n{}".format(type(e).__name__, e, traceback.format_exc()), failures=[],
                     evaluations=0, nontrivial=set(), labels=collections.Counter(), known_hits=collections.Counter(),
                     suppressed_hits=0, inconclusive=[], samples=[], metrics={}, counts=collections.Counter())
+
+
+def _fuzz_shard(pid, tier, part, shard, nshards, seed):
+    """one coverage-guided campaign in a subprocess (libFuzzer owns the process: it never returns to its caller)"""
+    import subprocess, shutil, tempfile
+    runs = max(1, part.fuzz // nshards)
+    outdir = tempfile.mkdtemp(prefix="vfuzz_{}_{}_".format(pid, shard))
+    empty = dict(error=None, failures=[], evaluations=0, nontrivial=set(), labels=collections.Counter(), known_hits=collections.Counter(),
+                 suppressed_hits=0, inconclusive=[], samples=[], metrics={}, counts=collections.Counter())
+    try:
+        env = dict(os.environ)
+        p = subprocess.run([sys.executable, "-W", "ignore", "-m", "pbt.fuzz", pid, part.name, tier, str(runs), str(derive_seed(seed, pid, part.name, shard) % (2 ** 31 - 1) or 1), outdir],
+                           env=env, capture_output=True, text=True, cwd=VERIF, timeout=max(600, part.timeout * 20))
+        rp = os.path.join(outdir, "result.json")
+        if not os.path.exists(rp):
+            empty["error"] = "coverage-guided campaign left no result (exit {}): {}".format(p.returncode, (p.stderr or "")[-600:])
+            return empty
+        with open(rp) as fh:
+            r = json.load(fh)
+        if r.get("error"):
+            empty["error"] = r["error"]
+            return empty
+        if r.get("skipped"):
+            empty["labels"]["coverage_guided:skipped"] += 1
+            empty["counts"]["coverage_guided_skipped"] += 1
+            return empty
+        out = dict(empty)
+        out["evaluations"] = r["evaluations"]
+        out["nontrivial"] = set(r["nontrivial"])
+        out["labels"] = collections.Counter(r["labels"])
+        out["labels"]["coverage_guided"] += r["evaluations"]
+        out["known_hits"] = collections.Counter(r["known_hits"])
+        out["inconclusive"] = [None] * int(r.get("inconclusive", 0))
+        out["samples"] = r.get("samples", [])
+        out["counts"] = collections.Counter(coverage_guided_executions=r["evaluations"],
+                                            coverage_guided_corpus_files=len(os.listdir(os.path.join(outdir, "corpus"))))
+        if r.get("failure"):
+            out["failures"] = [r["failure"]]
+        return out
+    except subprocess.TimeoutExpired:
+        empty["inconclusive"] = [None]
+        return empty
+    finally:
+        shutil.rmtree(outdir, ignore_errors=True)
 
 
 def _hypothesis_rounds(ctx, part, n_examples, hseed, max_rounds=4):
@@ -484,6 +533,8 @@ def run_property(pid, tier, seed, only_part=None):
         ns = part.shards or NPROC
         if part.strategy is not None and part.examples > 0:
             ns = max(1, min(ns, part.examples))
+        if part.fuzz > 0:
+            ns = max(1, min(part.shards or NPROC, part.fuzz // 200))
         for sh in range(ns):
             jobs.append((pid, tier, part.name, sh, ns, seed, shrink_budget))
     if jobs:
